@@ -266,6 +266,20 @@ class Gen:
             if got is not None:
                 return got
         if k == "struct":
+            if like is not None and getattr(self, "permute_fields", False) and not has_refs(tx) and rng.random() < 0.6:
+                # same total size, the dynamic fields distributed differently (only an object of the type can carry such a
+                # value into an existing object: field-by-field assignment of plain data refuses the parts that differ)
+                like = list(like)
+                groups = {}
+                for i, f in enumerate(tx["f"]):
+                    if not is_static(f):
+                        groups.setdefault(key(f), []).append(i)
+                for idxs in groups.values():
+                    if len(idxs) > 1:
+                        vals = [like[i] for i in idxs]
+                        rng.shuffle(vals)
+                        for i, w in zip(idxs, vals):
+                            like[i] = w
             vs = [self.value(f, b, None if like is None else like[i], False, _inarr) for i, f in enumerate(tx["f"])]
             return [v[0] for v in vs], {self.ns.fname(i): v[1] for i, v in enumerate(vs)}
         if k == "arr":
